@@ -189,8 +189,9 @@ package protocol
 // quotes are dropped; every other byte of the piece is returned as it is.
 //@ func decodeCookieArg(dst, src, skipQuotes) r
 //@   props C03, C17
-//@   modifies mem, ckLo
+//@   modifies bytes(dst), spare(dst), ckLo
 //@   allocates
+//@   ensures sameArray(r, dst) || fresh(r)
 //@   witness src = "\t a\t ", skipQuotes = false
 //@   replay-go al := []byte{'\t', ' ', '"', 'a', 0xc2, 0x85, '\n', 0}; var rec func(x []byte, d int); rec = func(x []byte, d int) { if len(x) > 0 && x[0] != ' ' && x[len(x)-1] != ' ' { r := decodeCookieArg(nil, append([]byte{}, x...), false); if !bytes.Equal(r, x) { fmt.Printf("VCGO-VIOLATED decodeCookieArg(%q) = %q\n", x, r); panic("stop") } }; if d == 0 { return }; for _, c := range al { rec(append(append([]byte{}, x...), c), d-1) } }; rec(nil, 4)
 //@   ensures @C17 len(r) <= len(src)
@@ -237,13 +238,24 @@ package protocol
 //@     invariant @C17 isKey ==> argFree(s.b, 0, rangeindex + 1)
 //@     invariant @C17 !isKey ==> 1 <= k && s.b[k-1] == '=' && argFree(s.b, 0, k - 1) && ampFree(s.b, k - 1, rangeindex + 1)
 
+// C17 (segmentation of a cookie line): a piece ends at the first ';'; inside it the first '=' separates name and
+// value; what is handed to decodeCookieArg is exactly those pieces. ckFree: no '=' and no ';'; semiFree: no ';'.
+//@ macro ckFree(b, lo, hi) = forall(j, lo, hi, b[j] != '=' && b[j] != ';')
+//@ macro semiFree(b, lo, hi) = forall(j, lo, hi, b[j] != ';')
 //@ func cookieScanner.next(s, kv) r
-//@   props C03
+//@   props C03, C17
 //@   requires kv != nil
-//@   modifies kv.key, kv.value, s.b, mem
+//@   requires @C17 !mayAlias(kv.key, s.b) && !mayAlias(kv.value, s.b)
+//@   modifies kv.key, kv.value, s.b, mem, ckLo
 //@   allocates
+//@   assert @C17 before decodeCookieArg#0: s.b[i] == '=' && ckFree(s.b, 0, i) && sameSlice(arg1, s.b[:i]) && !arg2
+//@   assert @C17 before decodeCookieArg#1: s.b[i] == ';' && 0 <= k && k <= i && (isKey ==> k == 0 && ckFree(s.b, 0, i)) && (!isKey ==> k >= 1 && s.b[k-1] == '=' && ckFree(s.b, 0, k - 1) && semiFree(s.b, k - 1, i)) && sameSlice(arg1, s.b[k:i]) && arg2
+//@   assert @C17 before decodeCookieArg#2: 0 <= k && k <= len(s.b) && (isKey ==> k == 0 && ckFree(s.b, 0, len(s.b))) && (!isKey ==> k >= 1 && s.b[k-1] == '=' && ckFree(s.b, 0, k - 1) && semiFree(s.b, k - 1, len(s.b))) && sameSlice(arg1, s.b[k:]) && arg2
 //@   loop 0:
 //@     invariant 0 <= k && k <= rangeindex + 1
+//@     invariant @C17 sameSlice(s.b, old(s.b)) && !mayAlias(kv.key, s.b) && !mayAlias(kv.value, s.b)
+//@     invariant @C17 isKey ==> k == 0 && ckFree(s.b, 0, rangeindex + 1)
+//@     invariant @C17 !isKey ==> 1 <= k && s.b[k-1] == '=' && ckFree(s.b, 0, k - 1) && semiFree(s.b, k - 1, rangeindex + 1)
 
 //@ func allocArg(h) r, kv
 //@   props C03
